@@ -43,6 +43,9 @@ func (L *Loaded) ScanDeterminism(pkgPaths []string) []ScanSite {
 		if strings.Contains(name, "Verif") || strings.Contains(name, "verif") {
 			return
 		}
+		if fp := L.Fset.Position(fn.Pos()).Filename; strings.Contains(fp, "/zz_verif") || strings.Contains(fp, "/vsupport/") {
+			return // harness overlay files are not code under test
+		}
 		if fp := L.Fset.Position(fn.Pos()).Filename; strings.Contains(fp, "/client/") || strings.Contains(fp, "/testutil/") || strings.HasSuffix(fp, "_test.go") || strings.Contains(fp, "snapshotter") {
 			return // CLI, test helpers and the snapshot extension are not part of block execution
 		}
